@@ -436,6 +436,21 @@ def Load.sumsL : List Load → List NodeSum
 end
 
 mutual
+/-- per file of a load (registration order, as `Load.sums`): does the reference resolution of the file
+fail — a scope-provider call raises (unknown name, exception of the provider) or a reference stays
+postponed for good -/
+def Load.unres : Load → List Bool
+  | .mk _ _ _ _ _ imps resolve unresolved _ _ => (unresolved || resolve.any (·.raises)) :: Load.unresL imps
+def Load.unresL : List Load → List Bool
+  | [] => []
+  | L :: Ls => L.unres ++ Load.unresL Ls
+end
+
+/-- the model is a value of an immutable type -/
+def Load.immut : Load → Bool
+  | .mk _ _ _ root _ _ _ _ _ _ => root.isConv
+
+mutual
 /-- calls while an imported file (and what it imports) is parsed -/
 def Load.buildTr : Load → List Key
   | .mk pid _ _ root pre imps _ _ _ mproc =>
